@@ -491,7 +491,7 @@ def strategy(n):
 
 
 def run_shard(ctx):
-    n = 350 if ctx.tier == "quick" else 5000
+    n = 350 if ctx.tier == "quick" else 15000
 
     def body(case):
         cl = run_case(case, set())
